@@ -309,6 +309,15 @@ func Garbage(genuine []byte, class string) []byte {
 		class = "prefix" // no short NAS-PDU in this message: fall back to a strict prefix
 	}
 	switch class {
+	case "empty-value":
+		// the message header followed by an open type of length 0: a SEQUENCE cannot be empty
+		return []byte{genuine[0], genuine[1], genuine[2], 0x00}
+	case "short-value":
+		// the message value is one octet long: the 16-bit count of the IE container cannot be read
+		return []byte{genuine[0], genuine[1], genuine[2], 0x01, 0x00}
+	case "short-value2":
+		// two octets: the preamble and one octet of the 16-bit IE count
+		return []byte{genuine[0], genuine[1], genuine[2], 0x02, 0x00, 0x00}
 	case "choice":
 		// NGAP-PDU CHOICE index 3 does not exist (three root alternatives)
 		out := append([]byte{}, genuine...)
